@@ -113,10 +113,11 @@ def make_request_body(a, c, nfrag):
     """Byte-level, through Request.body with real bytes (a, c concrete; fragmentation + threshold symbolic)."""
     data = bytes(range(65, 65 + a))
 
-    def q(t: int, f1: int, f2: int, f3: int, ct: int):
+    def q(t: int, f1: int, f2: int, f3: int, ct: int, mb: int):
         frags = [f1, f2, f3][:nfrag]
         assume(1 <= t <= 9)
         assume(0 <= ct < len(CONTENT_TYPES))
+        assume(-1 <= mb <= 4)                   # max_body_size: -1 = not configured (None), else 0..4 bytes
         for f in frags:
             assume(1 <= f <= 8)
         s = stubs.SymStream(a, frags, data=data)
@@ -125,19 +126,26 @@ def make_request_body(a, c, nfrag):
             env["CONTENT_LENGTH"] = str(c)
         if CONTENT_TYPES[ct] is not None:        # the raw body is the same bytes whatever the declared media type
             env["CONTENT_TYPE"] = CONTENT_TYPES[ct]
-        rq = Request(env, config={"max_memfile_size": t})
+        rq = Request(env, config={"max_memfile_size": t, "max_body_size": None if mb < 0 else mb})
+        want = data[:max(0, min(a, c if c is not None else -1))]
+        refused = False
         try:
             got = rq.body.read()
             again = rq.body.read()
         except RequestError as e:
-            return "unexpected request error %r" % (e,)
-        want = data[:max(0, min(a, c if c is not None else -1))]
-        if got != want:
-            return "Request.body.read() = %r, expected %r" % (got, want)
-        if again != want:
-            return "second access differs: %r" % (again,)
-        if env["wsgi.input"] is s or env["wsgi.input"] is not rq._body:
-            return "wsgi.input not replaced by the buffered copy"
+            if not (0 <= mb < len(want)):
+                return "unexpected request error %r" % (e,)
+            refused = True                      # above the configured maximum: refused, but still nothing read beyond Content-Length
+            cover("refused")
+        if not refused:
+            if 0 <= mb < len(want):
+                return "body of %d bytes accepted with max_body_size %d" % (len(want), mb)
+            if got != want:
+                return "Request.body.read() = %r, expected %r" % (got, want)
+            if again != want:
+                return "second access differs: %r" % (again,)
+            if env["wsgi.input"] is s or env["wsgi.input"] is not rq._body:
+                return "wsgi.input not replaced by the buffered copy"
         got_n = 0
         for n, m in zip(s.asked, s.given):
             if n > (c or 0) - got_n or n <= 0:
